@@ -42,9 +42,7 @@ class MiniRocketMultivariate(_PanelToTabularTransformer):
     ):
         self.num_features = num_features
         self.max_dilations_per_kernel = max_dilations_per_kernel
-        self.random_state = (
-            np.int32(random_state) if isinstance(random_state, int) else None
-        )
+        self.random_state = random_state
         super(MiniRocketMultivariate, self).__init__()
 
     def fit(self, X, y=None):
@@ -68,8 +66,11 @@ class MiniRocketMultivariate(_PanelToTabularTransformer):
                     " zero pad shorter series so that n_timepoints == 9"
                 )
             )
+        seed = (
+            np.int32(self.random_state) if isinstance(self.random_state, int) else None
+        )
         self.parameters = _fit_multi(
-            X, self.num_features, self.max_dilations_per_kernel, self.random_state
+            X, self.num_features, self.max_dilations_per_kernel, seed
         )
         self._is_fitted = True
         return self
